@@ -202,7 +202,7 @@ def run_scenario(events, flush=True):
                     def fn(act=act):
                         from cflib.crtp.crtpstack import CRTPPacket
                         _, rid, hdr, data, exp, tmo = act
-                        pk = CRTPPacket(hdr, list(data))
+                        pk = drv.sent_packet(hdr, data)
                         r.keep.append(pk)
                         r.pk_rid[id(pk)] = rid
                         try:
